@@ -49,8 +49,11 @@ class Hist:
         self.fd += n
         return out
 
-    def desc(self, nfds, dest, pad=0, fixed_ok=True, valid=True, denied=False):
+    def desc(self, nfds, dest, pad=0, fixed_ok=True, valid=True, denied=False, in_header=None):
         self.tok += 1
+        if in_header is not None and pad >= fds_msg.BIG and (self.tok % 2 == 0) != in_header:
+            self.tok += 1                         # fds_msg puts long padding into the header for even tokens
+
         d = {"len": 0, "fixed_ok": fixed_ok, "valid": valid, "nfds": nfds, "dest": dest, "denied": denied, "token": self.tok}
         d["len"] = fds_msg.min_len(d) + pad
         return d
@@ -259,6 +262,45 @@ def gen_history(rnd, cfg, nsteps):
             h.act_split(c)
         else:
             h.act_split(c, big=True)
+    h.finish()
+    return h.ev
+
+
+def gen_long_history(rnd, cfg, nsteps):
+    """aimed at do_writing: descriptor-carrying messages whose header (a very long object path) or body is larger than a
+    socket buffer, for recipients that negotiated descriptor passing and read nothing until the bus has written what the
+    socket takes; the bus needs several sendmsg calls for one message"""
+    h = Hist(rnd, cfg)
+    m = cfg[0]
+    h.connect(1, rnd.randint(0, 1)); h.connect(1, rnd.randint(0, 1))
+    if rnd.random() < 0.4:
+        h.connect(rnd.randint(0, 1), 1)
+    for _ in range(nsteps):
+        c = rnd.choice([0, 0, 1])
+        if c not in h.live:
+            continue
+        if c in h.plan:
+            h.continue_plan(c)
+            continue
+        pend = h.pend.get(c, 0)
+        r = rnd.random()
+        if r < 0.6:
+            a = rnd.randint(1, max(1, m - pend))
+            big = rnd.choice([300000, 450000, 700000, 1000000])
+            dest = rnd.choice(["u%d" % (1 - c)] * 4 + ["u%d" % c, "b"] + (["u2"] if h.nconn > 2 else []))
+            d = h.desc(a, dest, pad=big, in_header=(rnd.random() < 0.7 and cfg[2] < 0))
+            if rnd.random() < 0.25:
+                cut = rnd.choice([16, 5000, 250000, d["len"] - 8])
+                h.write(c, [fds_msg.desc_str(d, cut)], a)
+                h.plan[c] = [(["P:%d" % (d["len"] - cut)], 0)]
+            else:
+                h.write(c, [fds_msg.desc_str(d, d["len"])], a)
+        elif r < 0.75 and pend < m:
+            d = h.desc(0, "u%d" % (1 - c))
+            h.write(c, [fds_msg.desc_str(d, d["len"])], 1)     # a surplus descriptor ahead of a long message
+            h.pend[c] = pend + 1
+        else:
+            h.act_whole(c)
     h.finish()
     return h.ev
 
@@ -482,4 +524,19 @@ def scenarios():
         h.ev.append("T.%d" % TICK_MID)                # only connection 0 has waited long enough
         h.ev.append("T.%d" % TICK_MID)
     mk("pending-timeout-per-connection", (3, TIMEOUT, -1, CAP), timeout_two_conns)
+
+    def long_header(h):
+        h.connect(1, 0); h.connect(1, 0)
+        W(h, 0, 1, "u1", pad=400000, in_header=True)          # header alone needs several writes
+        W(h, 0, 2, "u1", pad=1000000, in_header=True)
+        W(h, 0, 2, "u1", pad=400000, in_header=False)         # long body: the header goes out with the first write
+        W(h, 0, 1, "u1")
+    mk("long-header-partial-writes", cfg, long_header)
+
+    def long_header_surplus(h):
+        h.connect(1, 1); h.connect(1, 1)
+        W(h, 0, 0, "u1", attach=2)                            # two descriptors ahead
+        W(h, 0, 3, "u1", attach=1, pad=600000, in_header=True)
+        W(h, 0, 2, "b", pad=300000, in_header=True)           # broadcast: both listeners, the sender included
+    mk("long-header-surplus-and-broadcast", cfg, long_header_surplus)
     return out
